@@ -530,7 +530,7 @@ func init() {
 	addProp(&PropSpec{
 		ID: "C20",
 		Harnesses: []HarnessSpec{
-			{Name: "VerifH_server_prefix", Covers: []string{"default-mount", "two-prefixes", "transcoding", "query", "error", "twirp-error", "grpc", "grpc-web", "unrouted", "outside-prefix"}},
+			{Name: "VerifH_server_prefix", Covers: []string{"default-mount", "two-prefixes", "transcoding", "query", "error", "twirp-error", "grpc", "grpc-web", "unrouted", "outside-prefix", "mux-alone"}},
 		},
 		Bounds: map[string]string{
 			"quick":    "NewServer (real; net/http.ServeMux pattern registration and routing, http.StripPrefix, the h2c wrapper and http2.ConfigureServer interpreted from source) with 4 mount configurations (default, MuxHandleOption(/api/), MuxHandleOption(/api, /v2/x/), MuxHandleOption(/)) plus HTTPHandlerOption(/static/); one request per entry kind - transcoding with a symbolic 1..2 byte path segment, failing handler (google.rpc.Status and Twirp error rendering), unary gRPC (ProtoMajor 2), unary gRPC-web, an unrouted path - sent as prefix+path to the server's handler and as path to an identically built bare mux: status, every response header, body, handler invocations and captured path variables must be equal; the same request under /other is answered 404 without reaching the mux; GET /static/file reaches the extra handler",
